@@ -88,6 +88,50 @@ pub fn div_kernel(which: u8, lhs: &mut [Word], rhs: &[Word]) -> bool {
     }
 }
 
+/// Words of scratch memory that [div_kernel] reserves for kernel `which` on these lengths.
+pub fn div_scratch_words(which: u8, lhs_len: usize, rhs_len: usize) -> usize {
+    let layout = match which {
+        0 => div::memory_requirement_exact(lhs_len, rhs_len),
+        _ => div::verif::memory_requirement(which, lhs_len, rhs_len),
+    };
+    layout.size() / core::mem::size_of::<Word>()
+}
+
+/// [div_kernel] with exactly `scratch_words` words of scratch memory instead of the reserved amount
+/// (panics with the allocator's internal error if the kernel asks for more).
+pub fn div_kernel_scratch(which: u8, lhs: &mut [Word], rhs: &[Word], scratch_words: usize) -> bool {
+    let top = crate::primitive::highest_dword(rhs);
+    let fast_div_rhs_top = crate::math::FastDivideNormalized2::new(top);
+    let mut allocation = MemoryAllocation::new(crate::memory::array_layout::<Word>(scratch_words));
+    let mut memory = allocation.memory();
+    match which {
+        0 => div::div_rem_in_place(lhs, rhs, fast_div_rhs_top, &mut memory),
+        _ => div::verif::div_rem_in_place(which, lhs, rhs, fast_div_rhs_top, &mut memory),
+    }
+}
+
+/// Words of scratch memory that [mul_kernel] reserves for the size dispatch (`which` = 0) on these lengths.
+pub fn mul_scratch_words(c_len: usize, a_len: usize, b_len: usize) -> usize {
+    mul::memory_requirement_exact(c_len, a_len.min(b_len)).size() / core::mem::size_of::<Word>()
+}
+
+/// `mul::add_signed_mul` (size dispatch) with exactly `scratch_words` words of scratch memory.
+pub fn mul_kernel_scratch(
+    c: &mut [Word],
+    positive: bool,
+    a: &[Word],
+    b: &[Word],
+    scratch_words: usize,
+) -> SignedWord {
+    let sign = if positive {
+        Sign::Positive
+    } else {
+        Sign::Negative
+    };
+    let mut allocation = MemoryAllocation::new(crate::memory::array_layout::<Word>(scratch_words));
+    mul::add_signed_mul(c, sign, a, b, &mut allocation.memory())
+}
+
 /// Square root with remainder on a normalised `a` of `2n` words (`n >= 2`): `b = floor(sqrt(a))`,
 /// the remainder replaces the low `n` words of `a`, returns its carry.
 pub fn sqrt_rem_kernel(b: &mut [Word], a: &mut [Word]) -> bool {
